@@ -45,8 +45,9 @@ static const double complex z_pool[] = { 50.0, 75.0, 50.0 + 5.0 * I, 1.0 };
 #define N_Z ((int)(sizeof(z_pool) / sizeof(z_pool[0])))
 
 /* frequency ids are ordered like the frequencies; -1 stands for -1e9 */
-static const double f_pool[] = { 0.5e9, 1e9, 2e9, 3e9, 4e9, 8e9 };
+static const double f_pool[] = { 0.5e9, 1e9, 2e9, 3e9, 4e9, 8e9, 16e9 };
 #define N_F ((int)(sizeof(f_pool) / sizeof(f_pool[0])))
+#define N_PROBE 6		/* ids 0..5 are probed after every call (ProbeF) */
 
 static const char *name_pool[] = { "a", "b", "c" };
 #define N_NAMES 3
@@ -444,7 +445,7 @@ static void project_store(vinfo_t *v)
     vt_put(",\"pv\":[");
     for (int h = 0; h <= v->maxh + 1 && h < MAX_H; ++h) {
 	vt_put("%s[", h ? "," : "");
-	for (int f = 0; f < N_F; ++f) {
+	for (int f = 0; f < N_PROBE; ++f) {
 	    double complex r = LIB(vnacal_get_parameter_value(vcp, h,
 			f_pool[f]));
 
@@ -746,8 +747,8 @@ static void op_set_z0(vinfo_t *v, ninfo_t *n, int zi)
  * full rows x cols matrix, in m form or (ab) with a = identity resp. a row
  * of ones for the column-system types.
  */
-enum { SH_REFL1, SH_REFL2, SH_THRU, SH_LINE };
-static const char *shape_name[] = { "refl1", "refl2", "thru", "line" };
+enum { SH_REFL1, SH_REFL2, SH_THRU, SH_LINE, SH_MAPPED };
+static const char *shape_name[] = { "refl1", "refl2", "thru", "line", "mapm" };
 
 static int op_add_std(vinfo_t *v, ninfo_t *n, int shape, const int *ports,
 	const int *hs, int ab)
@@ -760,6 +761,7 @@ static int op_add_std(vinfo_t *v, ninfo_t *n, int shape, const int *ports,
 	shape == SH_THRU ? 0 : 4;
     int a_rows, a_cols;
     int rv;
+    int ex = 1;		/* every value of the standard was computable */
 
     if (rows > 2 || cols > 2 || n->nf > 2)
 	return -2;
@@ -769,22 +771,31 @@ static int op_add_std(vinfo_t *v, ninfo_t *n, int shape, const int *ports,
 
 	switch (shape) {
 	case SH_REFL1:
-	    if (!h_value(v, hs[0], n->grid[f], &s[0][0]))
+	    if (!h_value(v, hs[0], n->grid[f], &s[0][0])) {
 		s[0][0] = 0.0;
+		ex = 0;
+	    }
 	    break;
 	case SH_REFL2:
-	    if (!h_value(v, hs[0], n->grid[f], &s[0][0]))
+	    if (!h_value(v, hs[0], n->grid[f], &s[0][0])) {
 		s[0][0] = 0.0;
-	    if (!h_value(v, hs[1], n->grid[f], &s[1][1]))
+		ex = 0;
+	    }
+	    if (!h_value(v, hs[1], n->grid[f], &s[1][1])) {
 		s[1][1] = 0.0;
+		ex = 0;
+	    }
 	    break;
 	case SH_THRU:
 	    s[0][1] = s[1][0] = 1.0;
 	    break;
 	case SH_LINE:
+	case SH_MAPPED:
 	    for (int i = 0; i < 4; ++i) {
-		if (!h_value(v, hs[i], n->grid[f], &x))
+		if (!h_value(v, hs[i], n->grid[f], &x)) {
 		    x = 0.0;
+		    ex = 0;
+		}
 		s[i / 2][i % 2] = x;
 	    }
 	    break;
@@ -844,6 +855,12 @@ static int op_add_std(vinfo_t *v, ninfo_t *n, int shape, const int *ports,
 	    : LIB(vnacal_new_add_through_m(n->vnp, m, rows, cols,
 			ports[0], ports[1]));
 	break;
+    case SH_MAPPED:
+	rv = ab ? LIB(vnacal_new_add_mapped_matrix(n->vnp, a, a_rows, a_cols,
+		    m, rows, cols, hs, 2, 2, ports))
+	    : LIB(vnacal_new_add_mapped_matrix_m(n->vnp, m, rows, cols,
+			hs, 2, 2, ports));
+	break;
     default:
 	rv = ab ? LIB(vnacal_new_add_line(n->vnp, a, a_rows, a_cols,
 		    m, rows, cols, hs, ports[0], ports[1]))
@@ -860,7 +877,7 @@ static int op_add_std(vinfo_t *v, ninfo_t *n, int shape, const int *ports,
 	}
     }
     vt_put("{\"e\":\"AddStd\",\"vc\":%d,\"n\":%d,\"shape\":\"%s\",\"ab\":%d,"
-	    "\"ports\":[", v->id, n->id, shape_name[shape], ab);
+	    "\"ex\":%d,\"ports\":[", v->id, n->id, shape_name[shape], ab, ex);
     for (int i = 0; i < nports; ++i)
 	vt_put("%s%d", i ? "," : "", ports[i]);
     vt_put("],\"hs\":[");
@@ -2015,6 +2032,140 @@ static void bulk_case(vt_rng_t *rng)
     }
 }
 
+/*
+ * Refused multi-cell standards: a fresh, not yet registered unknown in one
+ * cell and, in another cell, a handle that makes the standard unacceptable
+ * only through its chain of parameters -- a vector outside the band, a
+ * correlated parameter whose sigma grid is outside the band, reached directly
+ * or through one or two further correlated / unknown parameters, deleted
+ * handles inside and at the head of chains -- for double reflect, line and
+ * mapped matrix.  A refused standard adds nothing: after the calibration has
+ * been completed with known standards and solved, the unknowns of the refused
+ * standards must still have no value.  In a third of the cases the frequency
+ * vector is only set after these adds (then set_frequency_vector is what
+ * must be refused).
+ */
+static void chain_case(vt_rng_t *rng)
+{
+    static const int far[2] = { 5, 6 };
+    vinfo_t *v = &VC[0];
+    int ga = vt_below(rng, N_CAL_GRIDS);
+    const int *band = cal_grids[ga];
+    int late = vt_below(rng, 3) == 0;
+    int part[2];
+    int bad[16], nbad = 0;
+    int fresh[16], nfresh = 0;
+    int guess, inner, x;
+    ninfo_t *na;
+
+    op_create(0);
+    op_new_alloc(v, vt_below(rng, 2) ? VNACAL_T8 : VNACAL_E12, 2, 2, 2, band);
+    if ((na = last_new(v)) == NULL)
+	return;
+    if (!late)
+	op_set_frequency_vector(v, na, 0);
+    /* a grid that overlaps the band only partly (or, for the widest band,
+     * lies inside it) */
+    part[0] = band[0] == 1 ? 2 : 1;
+    part[1] = band[1] == 4 ? 3 : 4;
+    if (part[0] >= part[1]) {
+	part[0] = 2;
+	part[1] = 3;
+    }
+    op_make_scalar(v, G_SCALAR0 + vt_below(rng, N_SCALARS));
+    guess = v->lasth;
+#define MADE() (bad[nbad++] = v->lasth)
+    op_make_vector(v, far, 2, G_VECTOR0);		/* vector outside */
+    x = MADE();
+    op_make_unknown(v, x);				/* unknown -> vector out */
+    inner = MADE();
+    op_make_correlated(v, inner, 1, 0, 1, far);		/* corr -> unk -> vec out */
+    (void)MADE();
+    op_make_correlated(v, x, 1, 0, 1, far);		/* corr -> vec out */
+    (void)MADE();
+    op_make_correlated(v, vt_below(rng, 2) ? VNACAL_SHORT : guess, 2, 0, 1,
+	    far);					/* sigma grid outside */
+    inner = MADE();
+    op_make_correlated(v, inner, 1, 0, 1, far);		/* two levels */
+    inner = MADE();
+    op_make_correlated(v, inner, 1, 0, 1, far);		/* three levels */
+    inner = MADE();
+    op_make_unknown(v, inner);				/* unk -> corr chain */
+    (void)MADE();
+    op_make_vector(v, part, 2, G_VECTOR0);		/* vector partly inside */
+    x = MADE();
+    op_make_correlated(v, x, 1, 0, 1, far);
+    (void)MADE();
+    op_make_correlated(v, guess, 2, 0, 1, part);	/* sigma partly inside */
+    (void)MADE();
+    op_make_scalar(v, G_SCALAR0 + vt_below(rng, N_SCALARS));
+    x = v->lasth;
+    op_make_correlated(v, x, 1, 0, 1, far);		/* correlate deleted */
+    (void)MADE();
+    op_delete_parameter(v, x);
+    op_make_scalar(v, G_SCALAR0 + vt_below(rng, N_SCALARS));
+    x = MADE();
+    op_delete_parameter(v, x);				/* deleted handle */
+    bad[nbad++] = 1000;					/* never existed */
+#undef MADE
+    /* shuffle */
+    for (int i = nbad - 1; i > 0; --i) {
+	int j = vt_below(rng, i + 1), t = bad[i];
+
+	bad[i] = bad[j];
+	bad[j] = t;
+    }
+    for (int i = 0; i < nbad; ++i) {
+	int ports[2] = { 1, 2 };
+	int hs[4];
+	int shape = vt_below(rng, 3);
+	int uf;
+
+	op_make_unknown(v, vt_below(rng, 3) ? guess : vt_below(rng, 3));
+	uf = v->lasth;
+	fresh[nfresh++] = uf;
+	if (vt_below(rng, 4) == 0) {
+	    ports[0] = 2;
+	    ports[1] = 1;
+	}
+	if (shape == 0) {
+	    hs[0] = uf;
+	    hs[1] = bad[i];
+	    (void)op_add_std(v, na, SH_REFL2, ports, hs, vt_below(rng, 5) == 0);
+	} else {
+	    hs[0] = uf;
+	    hs[1] = hs[2] = VNACAL_ZERO;
+	    hs[3] = bad[i];
+	    if (vt_below(rng, 4) == 0) {		/* bad cell first */
+		hs[0] = bad[i];
+		hs[3] = uf;
+	    }
+	    (void)op_add_std(v, na, shape == 1 ? SH_LINE : SH_MAPPED, ports,
+		    hs, vt_below(rng, 5) == 0);
+	}
+    }
+    if (late)
+	op_set_frequency_vector(v, na, 0);
+    while (!useful_done(na, na->id & 1)) {
+	if (add_useful(v, na, na->id & 1, 0) != 0)
+	    break;
+    }
+    op_solve(v, na);
+    for (int i = 0; i < nfresh; ++i) {
+	if (vt_below(rng, 2))
+	    op_get_parameter_value(v, fresh[i], band[vt_below(rng, 2)]);
+    }
+    if (vt_below(rng, 2))
+	op_add_calibration(v, na, vt_below(rng, N_NAMES));
+    for (int i = 0; i < 10; ++i) {
+	int variant = 0;
+
+	if (VC[0].vcp == NULL)
+	    break;
+	random_step(rng, &variant);
+    }
+}
+
 static void seed_case(vt_rng_t *rng, uint64_t seed, long c, uint64_t salt)
 {
     /* vt_seed once mapped consecutive seeds to one splitmix orbit shifted
@@ -2074,7 +2225,10 @@ int main(int argc, char **argv)
 	    vt_put("{\"e\":\"Reset\",\"case\":\"bulk:%llu:%ld\"}",
 		    (unsigned long long)seed, c);
 	    vt_end_line();
-	    bulk_case(&rng);
+	    if (c % 3 == 2)
+		chain_case(&rng);
+	    else
+		bulk_case(&rng);
 	    finish_case();
 	}
 	return 0;
